@@ -130,7 +130,7 @@ static long long bitsOf(double d) { long long b; memcpy(&b, &d, sizeof b); retur
 template <typename T> inline typename std::enable_if<std::is_integral<T>::value, long long>::type recVal(TypedPack &, const T & v) { return (long long)v; }
 inline long long recVal(TypedPack &, const double & v) { return bitsOf(v); }
 inline long long recVal(TypedPack &, const std::string & s) { return vf::fpOf(s); }
-inline long long recVal(TypedPack & p, const std::shared_ptr<VDerived> & d) { p.ptr = d.get(); return d ? d->id : -7; }
+inline long long recVal(TypedPack & p, const std::shared_ptr<VDerived> & d) { p.ptr = d.get(); return 0; } // the id is read after the pointer was verified
 inline long long recVal(TypedPack &, const std::shared_ptr<VBase> & d) { return d ? d->vid() : -7; }
 template <typename A> inline void recOne(TypedPack & p, const A & a) { const long long v = recVal(p, a); p.push(TC<A>::v, v); }
 
@@ -920,10 +920,10 @@ struct World : CallbackSink, Sink
 		bool types = p.n == e.n;
 		for(int i = 0; types && i < e.n; ++i) types = p.code[i] == e.code[i];
 		if(! types) { fail("adapter:argument-type", "adapted listener c" + num(cbid) + " " + kAKindName[L.akind] + " received " + p.text() + ", expected " + e.text()); return; }
-		bool vals = true;
-		for(int i = 0; vals && i < e.n; ++i) vals = p.val[i] == e.val[i];
-		if(! vals) { fail("adapter:argument-value", "adapted listener c" + num(cbid) + " " + kAKindName[L.akind] + " received " + p.text() + ", static_cast of the dispatched " + strOf(f->a, f->shape) + " is " + e.text()); return; }
 		if(e.ptr && p.ptr != e.ptr) { fail("adapter:object-identity", "adapted listener c" + num(cbid) + " received a pointer that is not static_pointer_cast<Derived> of the dispatched pointer"); return; }
+		bool vals = true;
+		for(int i = 0; vals && i < e.n; ++i) vals = (p.code[i] == T_PDERIVED ? (long long)static_cast<const VDerived *>(p.ptr)->id : p.val[i]) == e.val[i];
+		if(! vals) { fail("adapter:argument-value", "adapted listener c" + num(cbid) + " " + kAKindName[L.akind] + " received " + p.text() + ", static_cast of the dispatched " + strOf(f->a, f->shape) + " is " + e.text()); return; }
 		++nAdapter;
 		count((std::string("adapter.calls.") + kAKindName[L.akind]).c_str());
 		if(f->a.i0 < 0) count("adapter.value_negative"); else if(f->a.i0 > 32767) count("adapter.value_above_short"); else if(f->a.i0 > 127) count("adapter.value_above_schar");
